@@ -442,7 +442,7 @@ pub fn run_mappings(out: &mut Out, tier: &str, rng: &mut Rng) {
     let n = if tier == "thorough" { 20000 } else { 1500 };
     for i in 0..n {
         let depth = 1 + rng.below(4);
-        let r = rty::random_named(rng, depth, &["PathBuf", "Uuid", "User", "Mode", "Timestamp"]);
+        let r = rty::random_named(rng, depth, &["PathBuf", "Uuid", "User", "Mode", "Timestamp", "Zähler", "Größe", "設定"]);
         let site = SITES[rng.below(SITES.len())];
         let mode = if i % 2 == 0 { "zod" } else { "ts" };
         let t = &tables[rng.below(2)];
